@@ -105,7 +105,9 @@ class IR(AuxDataContainer):
             Module._from_protobuf(m, ir) for m in proto_ir.modules
         )
         for m in ir.modules:
-            m._resolve_pending_entry_point(ir)
+            m._decode_symbols(ir)
+        for m in ir.modules:
+            m._decode_symbolic_expressions(ir)
         ir.cfg = CFG._from_protobuf(proto_ir.cfg.edges, ir)
         ir.aux_data.update(
             AuxDataContainer._read_protobuf_aux_data(proto_ir.aux_data, ir)
